@@ -405,6 +405,7 @@ def _tree_helpers_by_evaluation(ctx, ck, tree) -> set:
             D = y.args[1]
         return isinstance(D, Sym) and D.op == 'jnp.result_type' and sorted(map(repr, D.args)) == sorted(map(repr, ls))
 
+    _dot_by_evaluation(ctx, ck, tree, decided)
     check('as_promoted_dtype', lambda t: (t,), promoted, 'every leaf is converted to jnp.result_type(*all the leaves themselves) - the leaves, not their dtypes, so that weakly typed leaves do not widen the others')
     K = Opaque('key')
 
@@ -418,6 +419,95 @@ def _tree_helpers_by_evaluation(ctx, ck, tree) -> set:
     LO, HI = Opaque('low'), Opaque('high')
     check('uniform_like', lambda t: (t, K, LO, HI), random_leaf('uniform', (LO, HI)), 'leaf i is jax.random.uniform(key_i, leaf.shape, leaf.dtype, low, high) with one key of split(key, n) per leaf, in order')
     return decided
+
+
+def _dot_by_evaluation(ctx, ck, tree, decided: set) -> None:
+    """V6 for `dot`, by evaluating it (sa/axinterp.py, symbolic) on pairs of two-leaf pytrees (tuple and dict) for the four
+    combinations of real / complex leaves on either side (`jnp.iscomplexobj` answers from that table): the result must be
+    0 + h(x1, y1) + h(x2, y2) in leaf order, where h(x, y) is the Hermitian product - `jnp.vdot(x, y)`, or `jnp.dot` / `jnp.inner`
+    / `jnp.sum(.. * ..)` of the two leaves (ravelled or not) with the FIRST one conjugated unless it is real, and the second one not
+    conjugated unless it is real.  Any other shape of result leaves the clause to the written-form rule."""
+    from ..axinterp import Computed, Env, Func, Interp, Opaque, Raised, Sym, Undecided, UNK
+
+    fn = tree.defs.get('dot')
+    if not isinstance(fn, ast.FunctionDef):
+        return
+    world, table = ctx.world, ctx.table
+
+    def strip(v):
+        """(root leaf, number of conjugations) under ravel / reshape / flatten / conj wrappers"""
+        n = 0
+        while isinstance(v, Sym):
+            op = v.op
+            if op in ('jnp.conj', 'jnp.conjugate') and len(v.args) == 1:
+                n += 1
+                v = v.args[0]
+            elif op in ('jnp.ravel', 'jnp.asarray') and len(v.args) == 1:
+                v = v.args[0]
+            elif op == 'call' and isinstance(v.args[0], Sym) and v.args[0].op in ('.ravel', '.flatten', '.conj', '.conjugate') and len(v.args) == 1:
+                n += v.args[0].op in ('.conj', '.conjugate')
+                v = v.args[0].args[0]
+            else:
+                return None, 0
+        return v, n
+
+    def hermitian(term, x, y, cx):
+        if not isinstance(term, Sym):
+            return None
+        if term.op == 'jnp.vdot' and len(term.args) == 2:
+            (a, na), (b, nb) = strip(term.args[0]), strip(term.args[1])
+            na += 1
+        elif term.op in ('jnp.dot', 'jnp.inner') and len(term.args) == 2:
+            (a, na), (b, nb) = strip(term.args[0]), strip(term.args[1])
+        else:
+            return None
+        if a is None or b is None:
+            return None
+        if a is not x or b is not y:
+            return False
+        return (na % 2 == 1 or not cx[x.name]) and (nb % 2 == 0 or not cx[y.name])
+
+    problems: list[str] = []
+    n = 0
+    try:
+        for mk in (lambda p, q: (p, q), lambda p, q: {'p': p, 'q': q}):
+            for bits in range(16):
+                X1, X2, Y1, Y2 = Opaque('x1'), Opaque('x2'), Opaque('y1'), Opaque('y2')
+                cx = {'x1': bool(bits & 1), 'x2': bool(bits & 2), 'y1': bool(bits & 4), 'y2': bool(bits & 8)}
+
+                def is_complex(args, kwargs, cx=cx):
+                    root, _ = strip(args[0]) if args else (None, 0)
+                    if not isinstance(root, Opaque) or root.name not in cx:
+                        raise Undecided('iscomplexobj of something that is not a leaf')
+                    return cx[root.name]
+
+                it = Interp(world, table, budget=50_000)
+                it.symbolic = True
+                it.watch_externals = {k: Computed(is_complex) for k in ('jax.numpy.iscomplexobj', 'jnp.iscomplexobj', 'numpy.iscomplexobj')}
+                res = it.call_function(Func(fn, Env(tree)), [mk(X1, X2), mk(Y1, Y2)], {})
+                if it.degraded or res is UNK:
+                    return
+                n += 1
+                # +(+(0, h1), h2)
+                if not (isinstance(res, Sym) and res.op == '+' and len(res.args) == 2 and isinstance(res.args[0], Sym) and res.args[0].op == '+' and len(res.args[0].args) == 2):
+                    return
+                z_ = res.args[0].args[0]
+                if not (isinstance(z_, int) and not isinstance(z_, bool) and z_ == 0):
+                    return  # another accumulator: left to the written-form clauses (dtype of the start value)
+                h1, h2 = res.args[0].args[1], res.args[1]
+                v1, v2 = hermitian(h1, X1, Y1, cx), hermitian(h2, X2, Y2, cx)
+                if v1 is None or v2 is None:
+                    return
+                kinds = ', '.join(f'{k} {"complex" if v else "real"}' for k, v in cx.items())
+                if not v1:
+                    problems.append(f'with {kinds}: the first leaf pair contributes {h1!r:.140}, not conj(x1) . y1')
+                if not v2:
+                    problems.append(f'with {kinds}: the second leaf pair contributes {h2!r:.140}, not conj(x2) . y2')
+    except (Undecided, Raised):
+        return
+    decided.add('dot')
+    ck.expect('V6', not problems, fn, f'dot = sum over the leaves, in order, of the Hermitian product conj(x_leaf) . y_leaf ({n} evaluations: tuple and dict pytrees, every combination of real / complex leaves)',
+              f'{problems[0] if problems else ""} ({len(problems)} problems over {n} evaluations): not the Hermitian product of the pytrees', instance='dot', semantic=True)
 
 
 def _factories_by_evaluation(ctx, ck, stokes, kinds, by_letters) -> bool:
